@@ -98,3 +98,9 @@ proof('C08', 'Machine-checked for EVERY code triple, standard matrix, range, dep
       'encodeSpec * decodeSpec = I over the rationals (spec_inverse), so the value entering round() is within 0.26 of the integer expected code at every depth; round_spec/quant_exact then give exact equality; the -0.5 shortcut is shown not to fire for codes >= 1 (shortcut_not_taken). '
       'Pixel level (1x1 semantics); C11 lifts pixel functions to images of any layout. Evaluated ingredients (native_decide) as in C01/C02.',
       'Lean 4: composition of the C01/C02 rounding analyses + exact rational inverse + integer rounding lemmas; correspondence ties the model to the code')
+
+proof('C06', 'Machine-checked for EVERY finite pixel with components of magnitude <= 2 (in particular [-1/2,2]^3), each of the 10 supported non-709 primaries, either direction, both FMA modes (C06.prim_close): every output component is within 1e-5 (absolute, hence within '
+      '1e-5*max(1,|v|)) of the exact matrix M_out^-1 * Bradford(white_in->white_out) * M_in computed in rational arithmetic from the H.273 chromaticities and white points (Check/Prim.lean: exact 3x3 inverses by the adjugate); the exact matrix has row sums exactly 1, so '
+      'white maps to white and greys to greys within 1e-5 for the computed conversion; identical primaries return the data bit-exactly unchanged (same_primaries). Ingredients: (N) the 40 model matrices are entry-wise within 1.2e-6 of the exact ones (native_decide, '
+      're-evaluated on regenerated constants); (K) checker soundness + dot-product rounding analysis. Not proved as a theorem: "there and back within 1e-5 for every pixel" (evaluated for white, oracle for random pixels).',
+      'Lean 4: exact rational CIE derivation + evaluated matrix closeness (native_decide) + rounding analysis over the reals; correspondence ties the model to the code')
